@@ -51,6 +51,9 @@ const (
 	AbortDeadlock = "deadlock"
 	AbortStepCap  = "stepcap"
 	AbortWatchdog = "watchdog"
+	// AbortLeftover: goroutines of the code under test were still blocked when
+	// all callers had returned (not a verdict: a limit of the model).
+	AbortLeftover = "unmodelled-leftover-goroutines"
 )
 
 type stream struct {
@@ -101,6 +104,13 @@ type Stats struct {
 	PoolReuses       int64
 	PoolDrops        int64
 	StreamOverruns   int64
+	ChanOps          int64 // channel operations (send, receive, close, select) of the code under test
+	ChanParks        int64 // ... that found nothing to do and parked the task
+	Rendezvous       int64 // hand-overs on unbuffered channels
+	SelectChoices    int64 // selects with more than one case: first case tried chosen by the tape
+	Sleeps           int64 // time.Sleep calls of the code under test
+	ClockJumps       int64 // times the clock jumped to the earliest sleeper because nothing could run
+	Crashes          int64 // runs ended by an unrecovered panic on a goroutine of the code under test
 }
 
 var (
@@ -125,7 +135,7 @@ var (
 	tdone  [MaxTasks]chan struct{}
 
 	budget   int64
-	stepCap  int64
+	stepCap  int64 = 1 << 40
 	lastSite int32
 
 	gaps, picks, edges, perms, clocks, poolsS stream
@@ -135,6 +145,7 @@ var (
 	ntrace int32
 
 	simNow int64
+	runGen int64
 
 	abortHook func(kind string, detail string)
 )
@@ -340,9 +351,14 @@ func hashSwitch(from, to, site int32) {
 //go:norace
 func decide(mustLeave bool, why int32) {
 	st.Decisions++
+	wakeSleepers(false)
 	var run [64]int32
 	n := 0
-	if !mustLeave {
+collect:
+	n = 0
+	if !mustLeave || (cur >= 0 && tstate[cur] == stRunnable) {
+		// (a task that had to leave is runnable again if the clock jumped to its
+		// own wake-up time)
 		run[0] = cur
 		n = 1
 	}
@@ -370,10 +386,29 @@ func decide(mustLeave bool, why int32) {
 		st.MaxConcurrent = int32(n)
 	}
 	if n == 0 {
+		// Nothing can run now. If a caller task is still waiting, time may pass:
+		// jump to the earliest sleeper.
+		topAlive, anyAlive := false, false
 		for i := int32(0); i < ntasks; i++ {
 			if tstate[i] != stDone {
-				abort(AbortDeadlock)
+				anyAlive = true
+				if tgroup[i] == i {
+					topAlive = true
+				}
 			}
+		}
+		if topAlive {
+			if wakeSleepers(true) {
+				goto collect
+			}
+			abort(AbortDeadlock)
+		}
+		if anyAlive {
+			// Every caller task has returned; goroutines the code under test started
+			// are still parked (a worker pool, a leaked producer). That is no
+			// deadlock, but such goroutines outlive the run, which this simulator
+			// does not model: say so (the check then runs the code natively).
+			abort(AbortLeftover)
 		}
 		// Everybody is done.
 		active = false
@@ -404,16 +439,29 @@ func decide(mustLeave bool, why int32) {
 		ntrace++
 	}
 	me := cur
+	gen := runGen // read while this task still has the turn
 	cur = nxt
 	turn = nxt
 	if me >= 0 && tstate[me] != stDone {
-		waitTurn(me)
+		waitTurn(me, gen)
 	}
 }
 
 //go:norace
-func waitTurn(me int32) {
-	for i := 0; turn != me; i++ {
+func waitTurn(me int32, g int64) {
+	// g is the generation of the run the task belongs to, read by the caller
+	// while it was certain to be part of that run (a goroutine may be preempted
+	// for arbitrarily long between giving the turn away and getting here).
+	for i := 0; ; i++ {
+		if turn == me && runGen == g {
+			return
+		}
+		if runGen != g {
+			// The run this task belonged to is over (a goroutine of the code under
+			// test crashed it): never run again, whatever a later run does with
+			// the same task index.
+			select {}
+		}
 		if spinSleep && i > 64 {
 			time.Sleep(20 * time.Microsecond)
 		} else {
@@ -849,28 +897,83 @@ func Go(fn func()) {
 	tdone[i] = make(chan struct{})
 	st.Spawned++
 	ntasks++
-	go taskMain(i)
+	go taskMain(i, runGen)
 }
 
 // errNotPanic marks "no panic" in tpanic.
 type goexit struct{}
 
-func taskMain(i int32) {
-	waitTurnExported(i)
+func taskMain(i int32, g int64) {
+	waitTurnExported(i, g)
+	var pan interface{}
+	var stack string
 	func() {
 		defer func() {
 			if r := recover(); r != nil {
-				setPanic(i, r, string(debug.Stack()))
+				pan, stack = r, string(debug.Stack())
 			}
 		}()
 		getFn(i)()
 	}()
+	if pan != nil {
+		if crashRun(i, pan, stack) {
+			return
+		}
+		setPanic(i, pan, stack)
+	}
 	finish(i)
 	close(getDone(i))
 }
 
+// CrashPanic is the panic value reported for every caller task that had not
+// returned when a goroutine started by the code under test panicked without
+// recovering: in a real process that is the end of the process, so the run ends
+// there and none of those calls ever returns.
+type CrashPanic struct {
+	Msg string
+	// Culprit: this caller task is the one whose call started the goroutine
+	// that panicked (the others merely died with the process).
+	Culprit bool
+}
+
+func (c CrashPanic) String() string {
+	return "a goroutine started by the code under test panicked (the process would have died): " + c.Msg
+}
+
+// crashRun ends the run if task i, whose function panicked with r, is a
+// goroutine of the code under test (not a caller task). It reports whether it
+// did.
+//
 //go:norace
-func waitTurnExported(i int32) { waitTurn(i) }
+func crashRun(i int32, r interface{}, stack string) bool {
+	if !active || tgroup[i] == i {
+		return false
+	}
+	st.Crashes++
+	text := fmt.Sprint(r)
+	runGen++
+	active = false
+	turn = -1
+	cur = -1
+	for j := int32(0); j < ntasks; j++ {
+		if tstate[j] == stDone {
+			continue
+		}
+		tstate[j] = stDone
+		if j == i {
+			tpanic[j] = r
+			tstack[j] = stack
+		} else if tgroup[j] == j && tpanic[j] == nil {
+			tpanic[j] = CrashPanic{Msg: text, Culprit: j == tgroup[i]}
+			tstack[j] = stack
+		}
+		close(tdone[j])
+	}
+	return true
+}
+
+//go:norace
+func waitTurnExported(i int32, g int64) { waitTurn(i, g) }
 
 //go:norace
 func getFn(i int32) func() { return tfn[i] }
@@ -896,6 +999,8 @@ func finish(i int32) {
 type TaskResult struct {
 	Panic interface{}
 	Stack string
+	// Spawned: the task is a goroutine started by the code under test.
+	Spawned bool
 }
 
 // RunTasks runs fns as simulator tasks under the loaded tape and returns when
@@ -907,11 +1012,12 @@ func RunTasks(fns []func(), watchdog time.Duration) []TaskResult {
 		return nil
 	}
 	setup(fns)
+	g := curGen()
 	for i := int32(0); i < n; i++ {
 		setDone(i, make(chan struct{}))
 	}
 	for i := int32(0); i < n; i++ {
-		go taskMain(i)
+		go taskMain(i, g)
 	}
 	start(n)
 	timer := time.NewTimer(watchdog)
@@ -947,13 +1053,18 @@ func stuck() {
 func numTasks() int32 { return ntasks }
 
 //go:norace
+func curGen() int64 { return runGen }
+
+//go:norace
 func setDone(i int32, c chan struct{}) { tdone[i] = c }
 
 //go:norace
 func getDone(i int32) chan struct{} { return tdone[i] }
 
 //go:norace
-func getResult(i int32) TaskResult { return TaskResult{Panic: tpanic[i], Stack: tstack[i]} }
+func getResult(i int32) TaskResult {
+	return TaskResult{Panic: tpanic[i], Stack: tstack[i], Spawned: tgroup[i] != i}
+}
 
 //go:norace
 func setup(fns []func()) {
@@ -973,6 +1084,7 @@ func setup(fns []func()) {
 	}
 	turn = -1
 	cur = -1
+	runGen++
 	nRW = 0
 	nWG = 0
 	nOnce = 0
@@ -983,6 +1095,12 @@ func setup(fns []func()) {
 	}
 	for i := range twaitW {
 		twaitW[i] = false
+	}
+	for i := range twN {
+		twN[i] = 0
+		twMatch[i] = -1
+		twPartner[i] = -1
+		tsleepAt[i] = 0
 	}
 }
 
